@@ -1,6 +1,7 @@
 ------------------------------ MODULE Trace_Target ------------------------------
 (***************************************************************************)
-(* events: [ev |-> "reset", bs, cap (last LBA, Num)]                          *)
+(* events: [ev |-> "resize", cap]   the target's capacity changes                  *)
+(*         [ev |-> "reset", bs, cap (last LBA, Num)]                          *)
 (*         [ev |-> "io", method, a (caller's arguments: lba, tl / nb, flags),  *)
 (*          data (caller's write data), cdb, dout (what the binding received), *)
 (*          din_target (what the target put into data-in), din_seen (what the   *)
@@ -51,6 +52,8 @@ Step == /\ l <= Len(Trace)
         /\ LET e == Trace[l] IN
            IF e.ev = "reset"
            THEN disk' = [x \in {} |-> <<>>] /\ mine' = [x \in {} |-> <<>>] /\ bs' = e.bs /\ cap' = e.cap
+           ELSE IF e.ev = "resize"        \* the logical unit grew or shrank (its data stays): later capacity reports follow
+           THEN cap' = e.cap /\ UNCHANGED <<disk, mine, bs>>
            ELSE LET c == IF e.cdb = <<>> THEN "" ELSE ClassOfOp(e.cdb[1]) IN
                 /\ UNCHANGED <<bs, cap>>
                 /\ IF c = "" \/ Len(e.cdb) # Cmd[c].len
